@@ -154,6 +154,14 @@ def section_fingerprint(serif, out):
                         none_hash = sub.body[0].value.value
                     elif "isnan" in test and nan_hash is None:
                         nan_hash = sub.body[0].value.value
+    # literals not found as such (moved to a constant, computed …): ask the live function
+    try:
+        if not none_hash:
+            none_hash = int(Vector._hash_element(None))
+        if not nan_hash:
+            nan_hash = int(Vector._hash_element(float("nan")))
+    except Exception:
+        pass
     out.append("/-- `Vector._FP_P`, `Vector._FP_B` and the hash literals of `_hash_element` (0 = not found) -/")
     out.append(f"def FP_P : Nat := {P}")
     out.append(f"def FP_B : Nat := {B}")
@@ -237,6 +245,34 @@ def sort_flag_table(path, cls):
     return table
 
 
+def sort_flag_table_observed(cls):
+    """fallback when `key_fn` cannot be located/executed: the flag table that the observable placement of None implies.
+    With reverse=False the larger flag sorts last, with reverse=True first, so flag(None) = none_last XOR reverse."""
+    import warnings
+    from serif import Vector, Table
+    table = {}
+    with warnings.catch_warnings():
+        warnings.simplefilter("ignore")
+        for rev in (False, True):
+            for na_last in (False, True):
+                lasts = []
+                for data in ([1, None], [None, 1]):
+                    if cls == "Vector":
+                        res = list(Vector(list(data)).sort_by(reverse=rev, na_last=na_last))
+                    else:
+                        t = Table({"k": list(data), "p": [0, 1]}).sort_by("k", reverse=rev, na_last=na_last)
+                        res = list(t.cols()[0])
+                    if sorted(map(repr, res)) != sorted(map(repr, data)):
+                        raise ValueError("sort_by did not return a permutation")
+                    lasts.append(res[-1] is None)
+                if lasts[0] != lasts[1]:
+                    raise ValueError("None placement depends on the input order")
+                f_none = lasts[0] != rev
+                table[(True, rev, na_last)] = f_none
+                table[(False, rev, na_last)] = not f_none
+    return table
+
+
 def _emit_flag_table(out, name, doc, table):
     out.append(f"/-- {doc} -/")
     out.append(f"def {name} (isNone rev naLast : Bool) : Bool :=")
@@ -256,8 +292,11 @@ def section_sort(serif, out):
         try:
             tbl = sort_flag_table(os.path.join(SRC, "serif", fname), cls)
         except Exception as e:
-            tbl = None
-            errs.append(f"{name}: {type(e).__name__}: {e}")
+            try:
+                tbl = sort_flag_table_observed(cls)      # the key function is written differently: observe the placement
+            except Exception as e2:
+                tbl = None
+                errs.append(f"{name}: {type(e).__name__}: {e}; observed: {type(e2).__name__}: {e2}")
         _emit_flag_table(out, name, f"first component of the key tuple built by `key_fn` inside `{cls}.sort_by`, "
                          "executed on a None / non-None value for every (reverse, na_last)", tbl)
     if errs:
@@ -284,7 +323,24 @@ def section_display(serif, out):
                             and isinstance(sub.value.orelse, ast.Constant) and type(sub.value.orelse.value) is int):
                         vals["reprRowsReset"] = sub.value.orelse.value
     finally:
-        # neutral values (0) are emitted when a pattern is not found, so that the driver still builds
+        # where the literal was not found (the value is written as an expression, moved, …) read the value the live module
+        # computes; neutral values (0) only if that fails too
+        try:
+            import serif.display as _d
+            if not vals["maxHeadCols"] and type(_d.MAX_HEAD_COLS) is int:
+                vals["maxHeadCols"] = _d.MAX_HEAD_COLS
+            saved = _d._REPR_ROWS_DEFAULT
+            try:
+                if not vals["reprRowsReset"]:
+                    _d.set_repr_rows(None)
+                    if type(_d._REPR_ROWS_DEFAULT) is int:
+                        vals["reprRowsReset"] = _d._REPR_ROWS_DEFAULT
+                if not vals["reprRowsDefault"]:
+                    vals["reprRowsDefault"] = vals["reprRowsReset"]
+            finally:
+                _d._REPR_ROWS_DEFAULT = saved
+        except Exception:
+            pass
         out.append("/-- `display._REPR_ROWS_DEFAULT` as assigned at module level -/")
         out.append(f"def reprRowsDefault : Nat := {vals['reprRowsDefault']}")
         out.append("/-- the value `set_repr_rows(None)` resets the global to -/")
